@@ -152,6 +152,9 @@ def shard_main(args):
         module = importlib.import_module("vf.props." + pid.lower())
         known_preds = {k: v for k, v in getattr(module, "KNOWN", {}).items() if k in known_ids}
         case_timeout = getattr(module, "CASE_TIMEOUT", {"quick": 10, "thorough": 60})[tier]
+        if hasattr(module, "warmup"):
+            module.warmup()
+        t0 = time.time()
         t_end = t0 + seconds
         if getattr(module, "EXHAUSTIVE", False):
             cases = module.enumerate_cases(tier)
